@@ -1139,6 +1139,7 @@ func (pid *PID) Ask(ctx context.Context, to *PID, message any, timeout time.Dura
 	receiveContext := getContext()
 	receiveContext.build(ctx, pid, to, message, false)
 	responseCh := receiveContext.response
+	responseGuard := receiveContext.responseClosed
 
 	to.doReceive(receiveContext)
 	timer := timers.Get(timeout)
@@ -1146,21 +1147,30 @@ func (pid *PID) Ask(ctx context.Context, to *PID, message any, timeout time.Dura
 	select {
 	case result := <-responseCh:
 		timers.Put(timer)
-		receiveContext.responseClosed.Store(true)
 		putResponseChannel(responseCh)
 		return result, nil
 	case <-ctx.Done():
+		timers.Put(timer)
+		if !responseGuard.CompareAndSwap(false, true) {
+			// the responder won the guard before the caller gave up: its reply is
+			// in the channel or about to be; deliver it instead of losing it
+			reply := <-responseCh
+			putResponseChannel(responseCh)
+			return reply, nil
+		}
 		err = errors.Join(ctx.Err(), gerrors.ErrRequestTimeout)
 		pid.handleReceivedErrorWithMessage(pid, message, err)
-		timers.Put(timer)
-		receiveContext.responseClosed.Store(true)
 		putResponseChannel(responseCh)
 		return nil, err
 	case <-timer.C:
+		timers.Put(timer)
+		if !responseGuard.CompareAndSwap(false, true) {
+			reply := <-responseCh
+			putResponseChannel(responseCh)
+			return reply, nil
+		}
 		err = gerrors.ErrRequestTimeout
 		pid.handleReceivedErrorWithMessage(pid, message, err)
-		timers.Put(timer)
-		receiveContext.responseClosed.Store(true)
 		putResponseChannel(responseCh)
 		return nil, err
 	}
